@@ -22,6 +22,10 @@ pub struct Stack {
     /// Stack Pointer. SP points to the top value to be pushed onto the stack,
     /// This value backs the SP register of the VM
     sp: usize,
+
+    /// Highest value of sp since the last reset (verification hook)
+    #[cfg(marwood_verif)]
+    max_sp: usize,
 }
 
 impl Stack {
@@ -30,6 +34,8 @@ impl Stack {
         Stack {
             stack: vec![VCell::undefined(); 256],
             sp: 0,
+            #[cfg(marwood_verif)]
+            max_sp: 0,
         }
     }
 
@@ -144,6 +150,10 @@ impl Stack {
             Some(slot) => {
                 *slot = vcell.into();
                 self.sp += 1;
+                #[cfg(marwood_verif)]
+                {
+                    self.max_sp = self.max_sp.max(self.sp);
+                }
             }
             None => {
                 self.grow();
@@ -186,6 +196,8 @@ impl Stack {
         Stack {
             stack: self.stack[0..self.sp + 1].to_vec(),
             sp: self.sp,
+            #[cfg(marwood_verif)]
+            max_sp: self.sp,
         }
     }
 
@@ -198,6 +210,27 @@ impl Stack {
             .0
             .clone_from_slice(&cont.stack);
         self.sp = cont.sp;
+        #[cfg(marwood_verif)]
+        {
+            self.max_sp = self.max_sp.max(self.sp);
+        }
+    }
+}
+
+/// Verification hooks: stack high-water mark
+#[cfg(marwood_verif)]
+impl Stack {
+    /// highest stack pointer reached since the last reset
+    pub fn verif_max_sp(&self) -> usize {
+        self.max_sp
+    }
+
+    pub fn verif_reset_max_sp(&mut self) {
+        self.max_sp = self.sp;
+    }
+
+    pub fn verif_slots(&self) -> &[VCell] {
+        &self.stack
     }
 }
 
